@@ -17,6 +17,26 @@ CHECKS = {
              "integers; TLC, the Json community module, serde_json and the comparison code of the harness are trusted.",
         technique=TECH + "every transition of the closed state graph replayed into the real crate and compared with TLC's exact rational expectation",
         ref="6 (C01), 3, 4"),
+    "C02": dict(
+        text="Depth-bounded exhaustive TLC exploration (all input sequences while the exact rational fits 32 bits) of EMA, TrueRange, ATR, "
+             "MACD, KeltnerChannel and ChandelierExit over periods {1..5,7}, 6-64 period triples and five multipliers, scalar and bar inputs "
+             "covering every TrueRange branch in every order; spec lemmas EmaLemma (recursion = closed-form sum over the whole history) and "
+             "EmaConvex are model-checked; every transition is replayed into the real crate at 10-45 price units including 1e-18 and 3e10; "
+             "long recursions (to 30 000 inputs) are decided by the restart equivalence licensed by the spec (an EMA's state is its last output).",
+        note="Beyond the exact depth of TLC's 32-bit rationals (>= 8 steps for periods <= 5, 2-3 steps for periods >= 100) values are checked "
+             "relationally, not against an exact number; inputs are affine images of integer lattices.",
+        technique=TECH + "depth-bounded exhaustive behaviours replayed against exact rational expectations, plus restart-equivalence on long scripted runs",
+        ref="6 (C02)"),
+    "C03": dict(
+        text="Closed TLC models of FAST_STOCH, ROC, ER, CCI and MFI (every reachable window/cursor state for periods up to 5/4/3) and depth-bounded "
+             "exhaustive models of RSI (four seed/unit pairs), SLOW_STOCH, PPO and OBV, with a bar alphabet in which close differs from (high+low)/2, "
+             "typical prices repeat and volume is 0/1/2; the transcribed algorithms are checked equal to the documented formulas on every state, and "
+             "every transition plus seeded streams for periods up to 512 and runs of 9 000-30 000 bars is replayed into the real crate and compared "
+             "under tau(t)*c*scale with the condition number c supplied by the specification.",
+        note="Steps with a zero reference denominator or c > 1e6 are skipped and counted (they are C08's); expectations that hinge on a tie between "
+             "derived sums are only compared at exact (power-of-two) price units; inputs are affine images of integer lattices.",
+        technique=TECH + "every transition of closed / depth-bounded state graphs replayed against exact rational expectations with spec-supplied condition numbers",
+        ref="6 (C03)"),
 }
 
 NOT_APPLICABLE = {
